@@ -51,6 +51,7 @@ class UFun(Abstract):
 
 
 def register(R, tier="quick"):
+    register_maxquality(R)
     # ---- bm25 is monotone: increasing in tf, decreasing in field length (the facts block/max quality rely on)
     R.contract(S + ":bm25", label="scoring/bm25-monotone", props=["C12", "C09"],
                setup=lambda I: {n: z3.Real(n) for n in ("idf", "tf1", "tf2", "fl1", "fl2", "avgfl", "B", "K1")},
@@ -183,3 +184,27 @@ def register_stats(R):
                setup=lambda I: {"self": Obj(I.repo.klass(S, "TF_IDF")), "searcher": mk_env(I), "fieldname": "f", "text": "t"},
                ensures=NOSEG + ["count_events('parent.idf') == 1"],
                note="TF_IDF: idf from the parent searcher")
+
+
+def register_maxquality(R):
+    """C12/C05: the per-term ceiling max_quality() set up by WeightLengthScorer.setup from the term statistics must bound the
+    score of EVERY posting of the term: weight <= max_weight, length >= min_length (the statistics are exact folds: C10)."""
+    from pyvc.theories.trace import Recorder
+    from pyvc.values import PyDict
+
+    def setup(I):
+        ti = Recorder("ti", returns={"max_weight": z3.Real("maxw"), "min_length": z3.Real("minlen"), "max_length": z3.Real("maxlen"),
+                                     "weight": z3.Real("totw"), "doc_frequency": z3.Int("df")})
+        field = Recorder("field", attrs={"scorable": True})
+        searcher = Recorder("searcher", attrs={"schema": PyDict({"f": field})}, returns={"term_info": ti})
+        o = Obj(I.repo.klass(S, "BM25FScorer"), {"idf": z3.Real("idf"), "avgfl": z3.Real("avgfl"), "B": z3.Real("B"), "K1": z3.Real("K1"), "qf": 1})
+        w, ln = z3.Real("w"), z3.Real("len")
+        I.assume(z3.And(z3.Real("maxw") >= w, w > 0, z3.Real("minlen") > 0, z3.Real("minlen") <= ln, ln <= z3.Real("maxlen")))
+        return {"self": o, "searcher": searcher, "fieldname": "f", "text": "t", "w": w, "length": ln}
+    R.contract(S + ":WeightLengthScorer.setup", label="scoring/BM25F-max-quality", props=["C12", "C05"], setup=setup,
+               requires=["self.idf > 0", "self.avgfl > 0", "0 <= self.B <= 1", "self.K1 >= 0"],
+               harness="self.setup(searcher, fieldname, text)\nmq = self.max_quality()\ns = self._score(w, length)\n",
+               ensures=["s <= mq"],
+               inline_callees=[S + ":WeightLengthScorer.setup"],
+               canaries=[Canary("ceiling-from-longest-field", "ti.min_length()", "ti.max_length()")],
+               note="BM25F: max_quality() = _score(term max weight, term min length) >= the score of every posting of the term")
